@@ -74,3 +74,6 @@ def suppress(run, P):
 def oscrole(run, P):
     from rules import r_oscrole
     r_oscrole.run(run, P)
+def holder(run, P):
+    from rules import r_holder
+    r_holder.run(run, P, {'build_key', 'coap_new_bin_const'})
